@@ -37,22 +37,36 @@ THEOREMS = [
     "BeyondVerif.C11.pwl_value_unique",
     "BeyondVerif.C11.mask_exact_hit",
     "BeyondVerif.C11.mask_two_pi_value_serves_at_zero",
+    "BeyondVerif.C11.mask_given_at_creation_is_stored_partial",
+    "BeyondVerif.C11.no_mask_given_is_no_mask",
+    "BeyondVerif.C11.mask_read_is_function_of_current_table",
+    "BeyondVerif.C11.mask_assignment_replaces_table",
+    "BeyondVerif.C11.mask_after_any_history_is_pwl_interp",
+    "BeyondVerif.C11.mask_given_at_creation_is_pwl_interp_partial",
     "BeyondVerif.C11W.earth_radius_is_not_wgs84",
+    "BeyondVerif.C11W.mask_given_as_ndarray_is_rejected",
 ]
 LEVEL_TEXT = ("Lean theorems over R about formulas translated from the Python source on every run (stations._geodetic_to_cartesian, the topocentric "
               "matrix expression of orient.TopocentricOrientation with rot2/rot3 of utils/matrix.py, forms._cartesian_to_spherical, the four "
               "measures.*.from_orbit value expressions, the Earth constants): for all lat, lon, alt the station lies on the ellipsoid a, b=a(1-f) "
               "at height alt along the ellipsoid normal; the matrix columns are north, west, up of the ENU triad (orthonormal, det +1); range, "
               "elevation, azimuth(=-theta) and range-rate equal the ENU quantities for every target; Range = r*(len(path)-1); get_mask (loop "
-              "modelled exactly) equals the piecewise-linear interpolant of the table, the 2 pi value serving at 0, for all strictly increasing "
-              "tables ending at 2 pi and all azimuths.")
-LEVEL_NOTE = ("R -> double gap covered only by tolerance-bounded correspondence; get_mask loop, frame-change plumbing (centre offset, inverse) and "
-              "expand() are hand-modelled and tied by correspondence; the ellipsoid's equatorial radius in constants.py is 6378136.3 m, not the "
+              "modelled statement for statement, its formulas — the reduction modulo 2 pi, the scan test, the wrap x0, the returned expression — "
+              "translated from the source) equals the piecewise-linear interpolant of the table, the 2 pi value serving at 0, for all strictly increasing "
+              "tables ending at 2 pi and all azimuths; the way from the table GIVEN to the table read is inside the model: the `mask=` handling of "
+              "TopocentricFrame.__init__ and create_station is translated from the source (a list/tuple of rows is stored unchanged), a state machine "
+              "describes assignment, in-place writes and reads of station.mask, and for every creation argument and every history whose current table "
+              "follows the convention the next read is the interpolant of that table (reads keep nothing, change nothing).")
+LEVEL_NOTE = ("R -> double gap covered only by tolerance-bounded correspondence; the control flow of get_mask (extraction refuses another statement shape), "
+              "the attribute semantics of station.mask (plain attribute: checked on the class bodies), Python truth values / np.asarray of the mask argument, "
+              "frame-change plumbing (centre offset, inverse) and expand() are hand-modelled and tied by correspondence (real station objects driven through "
+              "random creation arguments and operation histories against the compiled state machine); the ellipsoid's equatorial radius in constants.py is 6378136.3 m, not the "
               "WGS-84 value (known finding); Lean kernel + propext/Classical.choice/Quot.sound; py2lean translator and harness trusted")
 TECHNIQUE = "Lean 4 proof (ring/field_simp/trig identities; list induction over the mask scan loop) over formulas regenerated from the Python AST; differential correspondence"
 TRUSTED = [
     "harness/py2lean.py + the extraction code of harness/props/C11.py: translate the source expressions into Generated/StationGeo{F,R}.lean on every run",
-    "lean/templates/Station.tpl (hand-written: frame change M^-1 (r - s) with M^-1 = M^T, get_mask scan loop, expand()), tied by the correspondence run",
+    "lean/templates/Station.tpl (hand-written: frame change M^-1 (r - s) with M^-1 = M^T, control flow of the get_mask scan loop, the state machine of station.mask, expand()), tied by the correspondence run",
+    "the hand-written semantic primitives of the generated mask path (MASK_PRELUDE in harness/props/C11.py: Python's bool() of None / sequences / ndarrays, np.asarray of a sequence of two rows) and the encoding of a 2xN table as a list of columns",
     "numpy / libm double arithmetic vs R: tolerance 1e-9 relative (angles 1e-10 rad scaled by conditioning)",
     "numpy semantics: `@` is the matrix product, np.linalg.inv of an orthonormal matrix is its transpose, `x in array` / np.where(==) is float equality, float % is floored modulo",
 ]
@@ -60,26 +74,37 @@ ASSUMPTIONS = [
     "station coordinates are given in a numeric kind for which numpy converts to float64 radians: Python int/float, numpy int32/int64/uint32/float64, "
     "as tuple, list or array, also mixed (all generated in correspondence and oracle); narrow integer dtypes are a known finding, float32 input is "
     "checked by the oracle to the precision of the input",
-    "the station's parent frame is ITRF (alias WGS84), the default of create_station; equatorial=False",
+    "the coordinates are geodetic coordinates in the station's parent frame — an Earth-fixed frame: WGS84 = ITRF (default), PEF, TIRF (all generated); theorems and model "
+    "work in that frame; equatorial=True (axes of EME2000 at the same place) is checked by the oracle only",
+    "a mask is handed over at creation as a list / tuple of two rows (lists, tuples, arrays, numpy scalars, ints) or assigned later as a 2xN float array; reads use Python / numpy real scalars",
     "pole motion / Earth-orientation rotations between ITRF and the inertial frames belong to C02; here only expand() and the rest state of the station enter",
     "theorems are over R; the implementation computes in IEEE doubles",
     "mask tables follow the documented convention (strictly increasing azimuths, last azimuth 2 pi); other tables are modelled and compared in the correspondence but no theorem speaks about them",
 ]
 NOT_COVERED = ["the clause 'WGS-84' itself: station_on_ellipsoid_partial is about the ellipsoid (Earth.r, Earth.f) of constants.py, whose radius is not WGS-84's (counter-witness in Witness/C11.lean, known finding)",
                "angular rates theta_dot / phi_dot of the spherical form (not part of the property; compared in the correspondence only)",
-               "get_mask when no mask is set (raises ValueError) and create_station(mask=<ndarray>) (raises on `if mask`): outside the property",
+               "get_mask when no mask is set (raises ValueError): modelled and compared, outside the property",
+               "equatorial=True stations: no theorem (oracle: same place, at rest, axes of EME2000)",
                "light-time / signal-path effects in Range and Doppler (the code has none; the measures are instantaneous geometric quantities)",
                "visibility() iteration and the AOS/LOS/mask listeners (C10)"]
-OPEN = ["coordinates given as int8/uint8/int16/uint16 numpy arrays are converted in float16/float32 (known finding C11-station-narrow-int-dtype); the model "
+OPEN = ["a mask handed over at the creation of the station as a numpy.ndarray (the '2D array of float' of the docstring) is rejected: `if mask` on an array raises ValueError "
+        "(known finding C11-mask-ndarray-at-creation, counter-witness C11W.mask_given_as_ndarray_is_rejected); mask_given_at_creation_is_{stored,pwl_interp}_partial are "
+        "proved for lists / tuples of rows, and mask_after_any_history_is_pwl_interp covers the array assigned afterwards",
+        "coordinates given as int8/uint8/int16/uint16 numpy arrays are converted in float16/float32 (known finding C11-station-narrow-int-dtype); the model "
         "(doubles / R) does not describe that rounding, so these kinds are kept out of the correspondence and covered by the oracle only",
         "the ellipsoid has the WGS-84 flattening but the EGM-96 equatorial radius 6378136.3 m: stations are 0.7 m closer to the geocentre than WGS-84 coordinates say (known finding C11-station-ellipsoid-radius); all theorems are stated for the constants as they are in constants.py"]
 RULE = ("correspondence: stations on a lat/lon/alt grid (all quadrants, near-polar) + random, created through create_station from coordinates of 14 numeric kinds "
         "(Python/numpy ints and floats, tuples, lists, arrays, mixed) with the model fed the exact values in degrees (op create + every station-frame op); targets from 1 km to lunar distance in ITRF with velocities; ops geo / topom / "
-        "topo (copy(frame=station, form='spherical')) / meas (the four measures, paths of 2-4 nodes) / sta2itrf / expand / mask (random tables of 1-12 points incl. "
-        "first azimuth 0, tables violating the convention, azimuths in [-4pi,4pi], exact hits, multiples of 2pi). non-trivial = generic input (not an edge constant); "
+        "topo (copy(frame=station, form='spherical')) / meas (the four measures, paths of 2-4 nodes) / sta2itrf / expand / mask (random tables of 1-72 points incl. "
+        "first azimuth 0, regular grids, tables violating the convention, azimuths in [-4pi,4pi], exact hits, multiples of 2pi, the middle of every segment incl. the last one) / "
+        "maskrun (a station created with mask= None / omitted / [] / () / list / tuple / rows of arrays / numpy scalars / int elevations / ndarray, keyword or positional, through "
+        "create_station or TopocentricFrame, parent frame default/WGS84/ITRF/PEF/TIRF, equatorial or not, then a history of assignments (4 array layouts), None, in-place column writes, "
+        "writes into the caller's own list, reads incl. azimuths asked before; replies and stored tables vs the state machine). Stations of the sweep are created with every option too. "
+        "non-trivial = generic input (not an edge constant); "
         "distinct = distinct request line. oracle: independent ENU computation in extended precision on the real API, ellipsoid membership/normal, rest in ITRF/PEF/TIRF, "
         "omega x r and finite differences in inertial frames, measures vs ENU quantities, "
-        "station position/axes for every numeric kind of coordinates incl. narrow numpy dtypes, mask vs independent interpolation")
+        "station position/axes for every numeric kind of coordinates incl. narrow numpy dtypes, mask vs independent interpolation for tables assigned, given at creation "
+        "(12 kinds of object x 4 entry points, round robin), re-assigned, written in place; parent frames; equatorial stations")
 
 TWO_PI = 2 * math.pi
 WGS84_A = 6378137.0
@@ -471,6 +496,7 @@ def gen_mask_history(rng, az, el, n_steps, strict, n_reads=3):
     the convention, empty tables, reads without a mask, writes out of range."""
     ops = []
     cur = [list(az), list(el)] if len(az) else None
+    asked = []
 
     def reads(k, segments):
         if cur and cur[0]:
@@ -478,9 +504,12 @@ def gen_mask_history(rng, az, el, n_steps, strict, n_reads=3):
             sg = segment_azimuths(cur[0])
             m = len(sg) - len(cur[0])
             qs += ([sg[m - 1]] if m > 0 else []) + rng.sample(sg, min(segments, len(sg)))     # middle of the last segment, then others
+            if asked and rng.random() < 0.7:
+                qs.append((rng.choice(asked), "asked-before"))     # the same azimuth again, after the table changed: nothing may be remembered
             rng.shuffle(qs)
         else:
             qs = [] if strict else [(rng.uniform(-7, 7), "random")]
+        asked.extend(x for x, _k in qs[:2])
         ops.extend(("Q", x, k_) for x, k_ in qs)
 
     reads(n_reads, 3)
@@ -791,20 +820,21 @@ def check_mask(out, st, az, el, x, mkind="", akind="random"):
     check_mask_value(out, got, az, el, x, mkind, akind)
 
 
-def check_mask_given(out, rng, okind, entry, az, el, ops, mkind="", coords=(10.0, 20.0, 30.0), parent="default"):
+def check_mask_given(out, rng, okind, entry, az, el, ops, mkind="", coords=(10.0, 20.0, 30.0), parent="default", equatorial=False):
     """a station created WITH the conventional table (az, el) handed over as an object of kind `okind` through `entry`, then driven
     through the history `ops` (gen_mask_history, strict): the station holds the given table; every read is the interpolation of the table the
     station holds at that moment — in every segment, on the nodes, outside [0, 2 pi) —: the given one, unaffected by later writes of the
     caller into its own list, then the re-assigned / modified-in-place one."""
     import numpy as np
-    extra = {"okind": okind, "entry": entry, "parent": parent, "given": [list(az), list(el)]}
+    extra = {"okind": okind, "entry": entry, "parent": parent, "equatorial": equatorial, "given": [list(az), list(el)]}
     cls = MASK_OBJ_KINDS[okind]
-    out.count(key=("mask-given", okind, entry, tuple(az)), kind="mask-given", okind=okind, entry=entry, table=mkind, npoints=len(az))
+    out.count(key=("mask-given", okind, entry, tuple(az)), kind="mask-given", okind=okind, entry=entry, table=mkind, npoints=len(az), equatorial=equatorial)
     try:
-        st = new_station(*coords, mask_given=(okind, az, el), entry=entry, parent=parent)
+        st = new_station(*coords, mask_given=(okind, az, el), entry=entry, parent=parent, equatorial=equatorial)
     except Exception as e:  # noqa: BLE001
-        if cls == "arr":
-            out.tally("mask-given-ndarray-rejected=" + type(e).__name__)      # known limitation (`if mask` on an array); nothing is promised
+        if cls == "arr" and isinstance(e, ValueError) and "truth value of an" in str(e):
+            out.fail("mask-given-rejected-ndarray-truth-value", f"a mask given at creation as a numpy array ({okind}) through {entry} is rejected: "
+                     "the truth value of an array is ambiguous", dict(extra, ops=[]), observed=repr(e), expected="a station holding the table")
             return
         out.fail(f"mask-given-rejected-{okind}", f"a mask given at creation as {okind} through {entry} is rejected",
                  dict(extra, ops=[]), observed=repr(e), expected="a station holding the table")
@@ -955,8 +985,11 @@ def oracle(ctx, widened):
         if mgiven is not None and MASK_OBJ_KINDS[mgiven[0]] == "seq":
             _o, (taz, tel) = mask_object(*mgiven)
             for x, akind in gen_azimuths(rng, taz, 3) + segment_azimuths(taz)[:len(taz)][-1:]:
-                with np.errstate(all="ignore"):
-                    got = float(st.get_mask(x))
+                try:
+                    with np.errstate(all="ignore"):
+                        got = float(st.get_mask(x))
+                except Exception as e:  # noqa: BLE001
+                    got = repr(e)
                 check_mask_value(out, got, taz, tel, x, "conv", akind, "given-at-" + entry.split("-")[0],
                                  {"okind": mgiven[0], "entry": entry, "parent": parent, "given": [list(mgiven[1]), list(mgiven[2])], "ops": [["Q", x, akind]]})
         drop_station(st)
@@ -986,7 +1019,7 @@ def oracle(ctx, widened):
         az, el, mkind = gen_mask(rng)
         given = MASK_OBJ_KINDS[okind] in ("seq", "arr")
         ops = gen_mask_history(rng, az if given else [], el if given else [], rng.choice([0, 1, 2, 3]) if given else 2, strict=True, n_reads=6)
-        check_mask_given(out, rng, okind, entry, az, el, ops, mkind, parent=rng.choice(PARENTS))
+        check_mask_given(out, rng, okind, entry, az, el, ops, mkind, parent=rng.choice(PARENTS), equatorial=rng.random() < 0.12)
     out.sample({"checks": "ellipsoid membership + normal, position formula, rest in ITRF/PEF/TIRF, omega x r in TOD/CIRF, finite-difference velocity in inertial frames, "
                           "range/elevation/azimuth/range-rate/axes vs extended-precision ENU, the four measures, inertial targets, WGS-84 constants, mask vs np.interp "
                           "(table assigned / given at creation as list, tuple, rows of arrays ... through create_station or TopocentricFrame / re-assigned / written in place), "
@@ -1074,6 +1107,34 @@ def maskTruth : MaskArg → PyTruth
   | .seq _ => .isTrue
   | .arr _ => .raises
 
+/-- `mask is None` -/
+def maskIsNone : MaskArg → PyTruth
+  | .absent => .isTrue
+  | _ => .isFalse
+
+/-- the truth value of `len(mask)` (also `len(mask) > 0`, `len(mask) != 0`): `len(None)` raises TypeError; a sequence of two rows and a 2xN array have length 2 -/
+def maskLenTruth : MaskArg → PyTruth
+  | .absent => .raises
+  | .emptySeq => .isFalse
+  | .seq _ => .isTrue
+  | .arr _ => .isTrue
+
+def pyNot : PyTruth → PyTruth
+  | .isTrue => .isFalse
+  | .isFalse => .isTrue
+  | .raises => .raises
+
+/-- `a and b` / `a or b` (the right operand is evaluated only when needed) -/
+def pyAnd (a b : PyTruth) : PyTruth :=
+  match a with
+  | .isTrue => b
+  | r => r
+
+def pyOr (a b : PyTruth) : PyTruth :=
+  match a with
+  | .isFalse => b
+  | r => r
+
 /-- `np.asarray(mask)` / `np.array(mask)`: the same numbers as a (new, for sequences) float array; `None` and `[]` give arrays that are not 2xN -/
 def npAsarray : MaskArg → MaskInit
   | .absent => .stored .junk
@@ -1100,6 +1161,30 @@ def _no_docstring(body):
         and isinstance(body[0].value.value, str) else body
 
 
+def _mask_test_expr(t, what):
+    """Lean text (type PyTruth) of a condition on the argument `mask`"""
+    u = ast.unparse(t)
+    if u == "mask":
+        return "maskTruth mask"
+    if u == "mask is None":
+        return "maskIsNone mask"
+    if u == "mask is not None":
+        return "pyNot (maskIsNone mask)"
+    if u in ("len(mask)", "len(mask) > 0", "len(mask) != 0", "len(mask) >= 1"):
+        return "maskLenTruth mask"
+    if u in ("len(mask) == 0", "not len(mask)"):
+        return "pyNot (maskLenTruth mask)"
+    if isinstance(t, ast.UnaryOp) and isinstance(t.op, ast.Not):
+        return f"pyNot ({_mask_test_expr(t.operand, what)})"
+    if isinstance(t, ast.BoolOp):
+        f = "pyAnd" if isinstance(t.op, ast.And) else "pyOr"
+        txt = _mask_test_expr(t.values[-1], what)
+        for v in reversed(t.values[:-1]):
+            txt = f"{f} ({_mask_test_expr(v, what)}) ({txt})"
+        return txt
+    raise py2lean.Untranslatable(f"{what}: condition on the mask argument not understood: {u}")
+
+
 def _mask_value_expr(e, what):
     """Lean text (type MaskInit) of the expression whose value goes to `self.mask`, in terms of the argument `mask`"""
     if isinstance(e, ast.Constant) and e.value is None:
@@ -1107,8 +1192,8 @@ def _mask_value_expr(e, what):
     if isinstance(e, ast.Call) and ast.unparse(e.func) in ("np.asarray", "np.array") and len(e.args) == 1 and not e.keywords \
             and ast.unparse(e.args[0]) == "mask":
         return "npAsarray mask"
-    if isinstance(e, ast.IfExp) and ast.unparse(e.test) == "mask":
-        return ("(match maskTruth mask with\n    | .raises => MaskInit.raises\n"
+    if isinstance(e, ast.IfExp):
+        return (f"(match {_mask_test_expr(e.test, what)} with\n    | .raises => MaskInit.raises\n"
                 f"    | .isTrue => {_mask_value_expr(e.body, what)}\n    | .isFalse => {_mask_value_expr(e.orelse, what)})")
     raise py2lean.Untranslatable(f"{what}: the value stored in self.mask is no longer None / np.asarray(mask) chosen by the truth value of mask: "
                                  + ast.unparse(e))
@@ -1546,8 +1631,9 @@ def correspondence(ctx):
         _o, (taz, tel) = mask_object(okind, az, el)
         ops = gen_mask_history(rng, taz if cls == "seq" else [], tel if cls == "seq" else [], rng.choice([0, 1, 2, 3, 5]), strict=False)
         parent = rng.choice(PARENTS)
+        equat = rng.random() < 0.12
         try:
-            stn = new_station(rng.uniform(-80, 80), rng.uniform(-180, 180), rng.uniform(0, 3000), mask_given=(okind, az, el), entry=entry, parent=parent)
+            stn = new_station(rng.uniform(-80, 80), rng.uniform(-180, 180), rng.uniform(0, 3000), mask_given=(okind, az, el), entry=entry, parent=parent, equatorial=equat)
         except ValueError:
             real = "raises"
         else:
@@ -1561,7 +1647,7 @@ def correspondence(ctx):
             toks += {"Q": lambda: ["Q", f2b(float(op[1]))], "A": lambda: ["A"] + tb(op[1], op[2]), "N": lambda: ["N"],
                      "P": lambda: ["P", str(op[1]), f2b(op[2]), f2b(op[3])], "L": lambda: []}[op[0]]()
         req = " ".join(toks)
-        inp = {"okind": okind, "entry": entry, "parent": parent, "given": [list(az), list(el)], "ops": [list(o) for o in ops]}
+        inp = {"okind": okind, "entry": entry, "parent": parent, "equatorial": equat, "given": [list(az), list(el)], "ops": [list(o) for o in ops]}
         add(req, lambda rep, real=real, inp=inp: run_check(rep, real, inp))
         out.count(key=req, kind="mask-life", okind=okind, entry=entry, table=mkind, n_ops=len(ops), npoints=len(az),
                   nontrivial=cls == "seq" or any(o[0] == "A" for o in ops))
@@ -1577,6 +1663,12 @@ def correspondence(ctx):
     return out
 
 
+def _options(inp):
+    """the create_station options recorded with a station input"""
+    mg = inp.get("mask_given")
+    return {"parent": inp.get("parent", "default"), "mask_given": None if not mg else (mg[0], mg[1], mg[2]), "entry": inp.get("entry", "create_station")}
+
+
 def replay(failure):
     """re-run the recorded failing input of an oracle family against the current tree"""
     from beyond.constants import Earth
@@ -1586,6 +1678,16 @@ def replay(failure):
     fam, inp = failure["family"], failure["input"]
     a, f = float(Earth.r), float(Earth.f)
     date = Date(2021, 3, 4, 5, 6, 7)
+    if fam.startswith("mask-") and isinstance(inp, dict) and "okind" in inp and "given" in inp:
+        # a mask handed over at creation, then a history of operations: the recorded history is run again on a fresh station
+        import random
+        check_mask_given(out, random.Random(0), inp["okind"], inp["entry"], inp["given"][0], inp["given"][1], [tuple(o) for o in inp.get("ops", [])],
+                         parent=inp.get("parent", "default"), equatorial=bool(inp.get("equatorial", False)))
+        return out
+    if fam.startswith("station-equatorial") and isinstance(inp, dict):
+        import random
+        check_equatorial(out, random.Random(0), *inp["latlonalt_deg_m"], a, f, date, inp.get("parent", "default"))
+        return out
     if fam.startswith("mask-interp") and isinstance(inp, dict) and "azimuths" in inp:
         st = new_station(10.0, 20.0, 30.0)
         check_mask(out, st, inp["azimuths"], inp["elevations"], inp["azim"], akind=inp.get("akind", "random"))
@@ -1597,19 +1699,20 @@ def replay(failure):
     if isinstance(inp, dict) and "latlonalt_deg_m" in inp and "target_itrf" not in inp and "state" not in inp:
         lat_d, lon_d, alt = inp["latlonalt_deg_m"]
         ckind = inp.get("coords_kind", "float-tuple")
-        st = new_station(lat_d, lon_d, alt, kind=ckind)
+        st = new_station(lat_d, lon_d, alt, kind=ckind, **_options(inp))
         lat_d, lon_d, alt = st.c11_deg
         lat, lon = math.radians(lat_d), math.radians(lon_d)
         ref0 = enu_reference(a, f, lat, lon, alt, [0, 0, 0], [0, 0, 0])
         check_station_state(out, st, {"latlonalt_deg_m": [lat_d, lon_d, alt], "coords_kind": ckind}, a, f, lat, lon, alt, date, ref0,
-                            ckind=ckind, fd_frame=inp.get("frame") if inp.get("frame") not in (None, "TOD", "CIRF") else None)
+                            ckind=ckind, fd_frame=inp.get("frame") if inp.get("frame") not in (None, "TOD", "CIRF") else None,
+                            pframe=PARENT_NAME[inp.get("parent", "default")])
         drop_station(st)
         out.failures = [x for x in out.failures if x["family"] == fam] or out.failures
         return out
     if isinstance(inp, dict) and "latlonalt_deg_m" in inp and "target_itrf" in inp:
         lat_d, lon_d, alt = inp["latlonalt_deg_m"]
         ckind = inp.get("coords_kind", "float-tuple")
-        st = new_station(lat_d, lon_d, alt, kind=ckind)
+        st = new_station(lat_d, lon_d, alt, kind=ckind, **_options(inp))
         lat_d, lon_d, alt = st.c11_deg
         lat, lon = math.radians(lat_d), math.radians(lon_d)
         inp_s = {"latlonalt_deg_m": [lat_d, lon_d, alt], "coords_kind": ckind}
@@ -1617,7 +1720,7 @@ def replay(failure):
             check_wgs84(out, st, inp_s, a, f, lat, lon, alt, date)
         else:
             t = [float(c) for c in inp["target_itrf"]]
-            check_target(out, st, inp_s, a, f, lat, lon, alt, t[:3], t[3:], date, int(inp.get("path_len", 3)))
+            check_target(out, st, inp_s, a, f, lat, lon, alt, t[:3], t[3:], date, int(inp.get("path_len", 3)), pframe=PARENT_NAME[inp.get("parent", "default")])
         drop_station(st)
         out.failures = [x for x in out.failures if x["family"] == fam] or out.failures
         return out
